@@ -14,6 +14,9 @@ import Mathlib.Probability.ProbabilityMassFunction.Integrals
 import Mathlib.Probability.Distributions.Uniform
 import Mathlib.MeasureTheory.Integral.Prod
 import Mathlib.MeasureTheory.Measure.Lebesgue.Basic
+import Mathlib.Analysis.Calculus.FDeriv.Pi
+import Mathlib.Analysis.Calculus.FDeriv.Add
+import Mathlib.Analysis.Calculus.FDeriv.Mul
 namespace GSV.Props.C16
 open GSV GSV.Props GSV.Incompr GSV.Summator Finset MeasureTheory
 
@@ -120,6 +123,18 @@ theorem jac_trace_zero (k : Nat → Nat → ℝ) (z1 z2 : Nat → ℝ) {dim : Na
     rw [mul_sum]; exact sum_congr rfl fun d _ => by ring
   rw [this, projector_orthogonal k j hdim (hk j (mem_range.mp hj)), mul_zero]
 
+/-- the hypothesis "all wave vectors are non-zero" is satisfiable by a non-trivial mode set -/
+example : ∀ j < 5, absSq (fun d j => (j : ℝ) + 1 + d) 3 j ≠ 0 := by
+  intro j _
+  rw [absSq_ne_zero_iff]
+  exact ⟨0, by norm_num, by positivity⟩
+
+/-- what the theorem excludes: with `k_1` in place of `k_0` in the projector (the edit
+    `cov_samples[0, j]` → `cov_samples[1, j]`) the contraction with `k` is `k_0 − k_1`, not `0` -/
+example : ∑ d ∈ range 2, ((e1 d : ℝ) - (if d = 0 then 3 else 4) * 4 / (3 ^ 2 + 4 ^ 2)) * (if d = 0 then 3 else 4) = -1 := by
+  simp [sum_range_succ, e1_real]
+  norm_num
+
 /-- **divergence-free**, in terms of `deriv`: `Σ_d ∂_d u_d(x) = 0` for the kernel output -/
 theorem divergence_free (k : Nat → Nat → ℝ) (z1 z2 : Nat → ℝ) {dim : Nat} (N : Nat) (hdim : 0 < dim)
     (hk : ∀ j < N, absSq k dim j ≠ 0) (x : Nat → ℝ) :
@@ -161,6 +176,88 @@ theorem divergence_free_3d (meanU var : ℝ) (k : Nat → Nat → ℝ) (z1 z2 : 
   have := (genField_divergence_free meanU var k z1 z2 N (by norm_num : 0 < 3)
     (fun j hj => by rw [absSq_real]; simpa [sum_range_succ] using hk j hj) x).2
   simpa [sum_range_succ] using this
+
+/-! ### divergence as the trace of the Fréchet derivative on `ℝ^dim` -/
+
+/-- a point of `ℝ^dim` in the kernel's indexing convention -/
+def embed {dim : Nat} (y : Fin dim → ℝ) : Nat → ℝ := fun c => if h : c < dim then y ⟨c, h⟩ else 0
+
+theorem phase_embed (k : Nat → Nat → ℝ) (dim j : Nat) (y : Fin dim → ℝ) :
+    phase k dim j (embed y) = ∑ c : Fin dim, k c j * y c := by
+  unfold phase embed
+  rw [Finset.sum_range]
+  simp
+
+/-- the linear functional `v ↦ ⟨k_j, v⟩` on `ℝ^dim` -/
+noncomputable def kDual (k : Nat → Nat → ℝ) (dim j : Nat) : (Fin dim → ℝ) →L[ℝ] ℝ :=
+  ∑ c : Fin dim, k c j • ContinuousLinearMap.proj (R := ℝ) (φ := fun _ : Fin dim => ℝ) c
+
+theorem kDual_apply (k : Nat → Nat → ℝ) (dim j : Nat) (v : Fin dim → ℝ) :
+    kDual k dim j v = ∑ c : Fin dim, k c j * v c := by
+  simp [kDual]
+
+theorem hasFDerivAt_phase_embed (k : Nat → Nat → ℝ) (dim j : Nat) (y : Fin dim → ℝ) :
+    HasFDerivAt (fun y : Fin dim → ℝ => phase k dim j (embed y)) (kDual k dim j) y := by
+  have : (fun y : Fin dim → ℝ => phase k dim j (embed y)) = fun y => kDual k dim j y := by
+    funext y; rw [phase_embed, kDual_apply]
+  rw [this]
+  exact (kDual k dim j).hasFDerivAt
+
+/-- each component of the kernel's field is Fréchet differentiable on `ℝ^dim` -/
+theorem kernelField_hasFDerivAt (k : Nat → Nat → ℝ) (z1 z2 : Nat → ℝ) {dim d : Nat} (N : Nat) (hd : d < dim)
+    (y : Fin dim → ℝ) :
+    HasFDerivAt (fun y : Fin dim → ℝ => kernelField k z1 z2 dim N d (embed y))
+      (∑ j ∈ range N, (proj k dim j d * (z2 j * Real.cos (phase k dim j (embed y)) -
+          z1 j * Real.sin (phase k dim j (embed y)))) • kDual k dim j) y := by
+  have hfun : (fun y : Fin dim → ℝ => kernelField k z1 z2 dim N d (embed y)) =
+      fun y => ∑ j ∈ range N, proj k dim j d *
+        (z1 j * Real.cos (phase k dim j (embed y)) + z2 j * Real.sin (phase k dim j (embed y))) := by
+    funext y; exact kernelField_eq_sum k z1 z2 N hd _
+  rw [hfun]
+  refine HasFDerivAt.fun_sum fun j _ => ?_
+  have hφ := hasFDerivAt_phase_embed k dim j y
+  have := ((hφ.cos.const_mul (z1 j)).add (hφ.sin.const_mul (z2 j))).const_mul (proj k dim j d)
+  refine this.congr_fderiv ?_
+  ext v
+  simp
+  ring
+
+/-- **divergence-free, Fréchet form**: the trace of the Jacobian of the kernel's field on `ℝ^dim` vanishes -/
+theorem divergence_free_fderiv (k : Nat → Nat → ℝ) (z1 z2 : Nat → ℝ) {dim : Nat} (N : Nat) (hdim : 0 < dim)
+    (hk : ∀ j < N, absSq k dim j ≠ 0) (y : Fin dim → ℝ) :
+    ∑ d : Fin dim, fderiv ℝ (fun y : Fin dim → ℝ => kernelField k z1 z2 dim N d (embed y)) y (Pi.single d 1) = 0 := by
+  have h := jac_trace_zero k z1 z2 N hdim hk (embed y)
+  rw [Finset.sum_range] at h
+  rw [← h]
+  refine Finset.sum_congr rfl fun d _ => ?_
+  rw [(kernelField_hasFDerivAt k z1 z2 N d.isLt y).fderiv]
+  unfold jac
+  simp only [_root_.sum_apply, smul_apply, kDual_apply, smul_eq_mul]
+  refine Finset.sum_congr rfl fun j _ => ?_
+  simp [Pi.single_apply]
+
+/-- the same for the generator's output `mean_u e1 + mean_u √(var/N) · kernel` -/
+theorem genField_divergence_free_fderiv (meanU var : ℝ) (k : Nat → Nat → ℝ) (z1 z2 : Nat → ℝ) {dim : Nat} (N : Nat)
+    (hdim : 0 < dim) (hk : ∀ j < N, absSq k dim j ≠ 0) (y : Fin dim → ℝ) :
+    (∀ d < dim, DifferentiableAt ℝ (fun y : Fin dim → ℝ => genField meanU var k z1 z2 dim N d (embed y)) y) ∧
+    ∑ d : Fin dim, fderiv ℝ (fun y : Fin dim → ℝ => genField meanU var k z1 z2 dim N d (embed y)) y (Pi.single d 1) = 0 := by
+  have hD : ∀ d < dim, HasFDerivAt (fun y : Fin dim → ℝ => genField meanU var k z1 z2 dim N d (embed y))
+      ((meanU * Real.sqrt (var / (N : ℝ))) •
+        fderiv ℝ (fun y : Fin dim → ℝ => kernelField k z1 z2 dim N d (embed y)) y) y := by
+    intro d hd
+    unfold genField
+    have h := (kernelField_hasFDerivAt k z1 z2 N hd y)
+    rw [← h.fderiv] at h
+    exact (h.const_mul _).const_add _
+  refine ⟨fun d hd => (hD d hd).differentiableAt, ?_⟩
+  have : ∀ d : Fin dim, fderiv ℝ (fun y : Fin dim → ℝ => genField meanU var k z1 z2 dim N d (embed y)) y (Pi.single d 1)
+      = (meanU * Real.sqrt (var / (N : ℝ))) *
+        fderiv ℝ (fun y : Fin dim → ℝ => kernelField k z1 z2 dim N d (embed y)) y (Pi.single d 1) := by
+    intro d
+    rw [(hD d d.isLt).fderiv]
+    simp
+  simp only [this]
+  rw [← Finset.mul_sum, divergence_free_fderiv k z1 z2 N hdim hk y, mul_zero]
 
 /-! ### mean -/
 
